@@ -478,6 +478,33 @@ def family_rec(rng, tier):
             yield stmts, {"family": "rec", "same": [4, 5], "expect_int": (4, exp) if exp is not None else None, "no_change_from": 4}
 
 
+SCOPE = [
+    # a declared local that has the name of a parameter does not hide the parameter
+    (['f::{[x t];t::x;t+1}', 'f(5)'], (1, 6)),
+    (['h::{[y];x+y}', 'h(1;2)'], (1, 3)),
+    (['h::{[z y x];(x*100)+(y*10)+z}', 'h(1;2;3)'], (1, 123)),
+    # assigning x y z inside a function changes that function's own parameter only
+    (['f::{x::x+1;x}', 'g::{[t];t::f(x);x+t*10}', 'g(5)'], (2, 65)),
+    (['x::100', 'f::{x::x+1;x}', 'f(1)', 'x'], (3, 100)),
+    (['x::100', 'f::{x::x+1;x}', 'f(1)', 'x'], (2, 2)),
+    (['f::{y::7;y}', 'g::{[t];t::f(x);y+t*10}', 'g(1;2)'], (2, 72)),
+    (['f::{z::x;z}', 'g::{f(9);z}', 'g(1;2;3)'], (2, 3)),
+    # a local of the caller is visible to the callee (dynamic scope) but a parameter of the callee hides it
+    (['f::{x}', 'g::{[t];t::x;f(t+1)}', 'g(4)'], (2, 5)),
+]
+
+
+def family_scope(rng, tier):
+    for stmts, exp in SCOPE:
+        for form in ('%s', '{%s}()', ':[1;%s;0]'):
+            st = list(stmts)
+            i = exp[0]
+            if st[i] == 'x' and form != '%s':
+                continue
+            st[i] = form % st[i]
+            yield st, {"family": "scope", "expect_int": exp}
+
+
 def py_fill(base, fill):
     """the property's positional rule, written independently of the Coq spec"""
     out, m = [], 0
@@ -502,7 +529,7 @@ def family_proj(rng, tier):
     resolution passes admit, ended by a full call; through variables, through @, and with a lambda as base"""
     vals_pool = ['1', '2', '3', '"ab"', '[4 5]', '0cq', '7', '8', '9']
     for ar, variant in ((2, 0), (3, 0), (2, 1), (3, 1)):
-        # variant 1: monadic operands are not counted by get_fn_arity, so these bodies have parser arity 0
+        # variant 1: bodies whose parameters occur under monads only (get_fn_arity ignored those before a1b9850)
         fdefs = {3: '{x,y,z}', 2: '{x,y}'} if variant == 0 else {3: '{(,x),(,y),,z}', 2: '{(,x),,y}'}
         for lambda_base in (False, True):
             maxproj = 3 if lambda_base else 2
@@ -856,7 +883,7 @@ def check_programs(chk, rng, fams):
     return bad_props, bad_corrs
 
 
-FAMILIES = [family_calls, family_rec, family_proj, family_faults, family_cond, family_misc, family_ops]
+FAMILIES = [family_calls, family_rec, family_proj, family_faults, family_cond, family_scope, family_misc, family_ops]
 
 
 def run(tier, replay=None):
@@ -881,7 +908,7 @@ def run(tier, replay=None):
         rng2 = random.Random(chk.seed + 1)
         chk.tier = "thorough"
         try:
-            bp2, _ = check_programs(chk, rng2, [family_calls, family_proj, family_faults, family_cond, family_rec])
+            bp2, _ = check_programs(chk, rng2, [family_calls, family_proj, family_faults, family_cond, family_rec, family_scope])
             bpm2, _ = check_merge(chk, rng2)
         finally:
             chk.tier = tier
